@@ -50,7 +50,7 @@ pub const FAMILIES: &[&str] = &[
     // rejections introduced (or moved from a panic / a silent acceptance to a diagnostic) by fix batch 2
     "attr_dup", "struct_base_methods", "fn_template_default", "template_value_signature", "const_part_write",
     "out_arg_place", "default_arg_wrong", "enum_incomplete", "rayquery_flags", "pp_else_after_else", "pp_if_across_include",
-    "export_fix2", "export_msl_fix2", "layout_fix2",
+    "export_fix2", "export_msl_fix2", "layout_fix2", "member_fix2",
 ];
 
 const POOL: &[&str] = &[
@@ -1578,6 +1578,32 @@ pub fn diag_program(family: &str, rng: &mut Rng) -> Option<DiagProg> {
             }
             s.push_str(COMPUTE_TAIL);
             return Some(DiagProg { files: vec![("main.rssl".to_string(), s)], layout: true });
+        }
+        "member_fix2" => {
+            // 92047b7 (a member name that is only a leading ::), 4189835 (swizzle on a constant buffer of a vector)
+            let ns = names(rng, k);
+            s.push_str("struct Pod\n{\n    int x;\n};\n");
+            let cb = rng.chance(1, 2);
+            for n in &ns {
+                if cb {
+                    s.push_str(&format!("ConstantBuffer<float4> cb_{};\n", n));
+                }
+            }
+            s.push_str("void body()\n{\n");
+            let mut uses: Vec<String> = Vec::new();
+            for n in &ns {
+                if cb {
+                    uses.push(format!("    float f_{} = cb_{}.{};\n", n, n, rng.pick(&["x", "xy.x", "w", "rgb.r"])));
+                } else {
+                    uses.push(format!("    Pod s_{};\n    s_{}.::x = 1;\n", n, n));
+                }
+            }
+            shuffle(rng, &mut uses);
+            for u in &uses {
+                s.push_str(u);
+            }
+            s.push_str("}\n");
+            s.push_str(COMPUTE_TAIL);
         }
         _ => return None,
     }
